@@ -6,11 +6,16 @@ History check on one long-lived FakedWBEMConnection (use_pull_operations in
 True/False/None, server pull support enabled/disabled/toggled) holding a
 generated repository.  Each call step runs one Iter... operation with a
 consumption pattern (exhaust, close() after k items, drop + gc.collect(),
-suspend and resume later, server error injected at the j-th Open/Pull
-request).  Per call the expected objects are the result of the equivalent
+suspend and resume later, a failure injected at the j-th Open/Pull request:
+a CIM status, or something that is not a CIM status - ConnectionError,
+TimeoutError, HTTPError, a response that is not well-formed XML, a response
+without / with unusable EndOfSequence and EnumerationContext).  Per call the expected objects are the result of the equivalent
 traditional operation on a second connection object to the same mock server
 that never runs an Iter... operation, and the same Iter... call is also made
 on a brand-new connection object (same use_pull_operations) to that server.
+Sub-check errmatrix enumerates 'error in the middle' completely: all 7 Iter
+operations x use_pull_operations {None, True} x every kind of failure x
+position of the failing request x server keeps / closes the enumeration.
 """
 
 import gc
@@ -48,10 +53,25 @@ RULE = (
     "| close() after k items (k may be 0) | drop the generator + "
     "gc.collect() after k items | suspend after k items (resumed, closed or "
     "dropped by a later step, so several enumerations interleave) | a "
-    "CIMError / ConnectionError injected at the j-th Open/Pull request of "
-    "the call, the server keeping or (DSP0200, ContinueOnError false) "
+    "failure injected at the j-th Open/Pull request of the call: CIMError "
+    "(FAILED, ACCESS_DENIED, NOT_SUPPORTED), or not a CIM status: "
+    "ConnectionError, TimeoutError, HTTPError, XMLParseError (response cut "
+    "off) raised in place of the exchange, or the server's real response "
+    "without EndOfSequence+EnumerationContext / without EnumerationContext "
+    "/ with an invalid EndOfSequence value (pywbem raises CIMXMLParseError "
+    "itself); the server keeping or (DSP0200, ContinueOnError false) "
     "closing the enumeration), toggle (server pull support switched), "
-    "resume.  matrix: all 6 generator operations x use_pull {None, True, "
+    "resume.  errmatrix: all 7 Iter operations (incl. IterQueryInstances) "
+    "x use_pull {None, True} x 2 CIM status codes + the 7 non-CIM failures "
+    "x failing request = 1st Pull, 2nd Pull, Open (thorough: also the last "
+    "Pull, result sizes 4 and 7) x server keeps / closes the enumeration, "
+    "MaxObjectCount 1, enumerated completely (one history per operation x "
+    "use_pull x failure, so the first call meets an undetermined family "
+    "and the later ones a decided one); evidence classes error-in-the-"
+    "middle:<CIMError|non-CIMError>:<op>:server-context-still-open count "
+    "the histories in which a request failed while the server still held "
+    "the enumeration, i.e. where the clean-up clause has something to do.  "
+    "matrix: all 6 generator operations x use_pull {None, True, "
     "False} x server pull {on, off} x result size 0..6 (thorough: 0..12) x "
     "MaxObjectCount 1..size+1 x {exhaust, close after 1, drop after 1} "
     "(thorough: also close after 0 / size-1, drop after size), enumerated "
@@ -111,6 +131,21 @@ ASSUMPTIONS = [
     "iterator must raise the injected error (CIM_ERR_FAILED / "
     "CIM_ERR_NOT_SUPPORTED at the Open request of an undetermined family "
     "means fallback, as documented)",
+    "injected failures that are not a CIM status: ConnectionError, "
+    "TimeoutError, HTTPError(503) and XMLParseError are raised by the same "
+    "wrapper in place of the exchange (that is where WBEMConnection."
+    "_imethodcall raises them; the server does not see the request); for "
+    "the 'rsp-...' kinds the mock server processes the request and the "
+    "wrapper removes / spoils the EndOfSequence and EnumerationContext out "
+    "parameters of its response, so that pywbem's own response check "
+    "raises CIMXMLParseError (a subclass of ParseError).  The iterator "
+    "must raise an exception of that class, the objects delivered before "
+    "must belong to the expected result, and - 'closing or abandoning the "
+    "iterator early closes the server-side enumeration' does not depend on "
+    "why the iteration ended - no enumeration context may be left on the "
+    "server: the client still knows the context of the last good response. "
+    "Exception: a spoiled response to the Open request never told the "
+    "client a context, so the wrapper removes that context itself",
     "the server's context table is read through "
     "conn._mainprovider.enumeration_contexts (keys only); with suspended "
     "enumerations it may hold at most one context per suspended one",
@@ -131,6 +166,13 @@ SENSITIVITY = [
     "IterQueryInstances: CloseEnumeration removed from the finally block -> "
     "query/context-leak:after-error, query/context-leak:fresh-connection-"
     "after-error",
+    "IterQueryInstances: clean-up 'finally:' turned into 'except CIMError: "
+    "<close>; raise' (/tmp/seeded_out/C15/change3.diff) -> errmatrix/"
+    "context-leak:after-non-CIM-error (28 hits = 7 failures x use_pull "
+    "{None, True} x 1st/2nd Pull), query/context-leak:after-non-CIM-error",
+    "IterEnumerateInstancePaths: the same mutation (clean-up only for "
+    "CIMError) -> errmatrix/context-leak:after-non-CIM-error, history/"
+    "context-leak:after-non-CIM-error, and :after-close / :after-drop",
     "IterEnumerateInstances fallback no longer sets path.host -> "
     "history/path-host:EnumInst:trad:missing",
     "IterEnumerateInstancePaths fallback no longer sets path.host -> "
@@ -198,6 +240,74 @@ FAILED = pywbem.CIM_ERR_FAILED
 COE_UNSUPPORTED = pywbem.CIM_ERR_CONTINUATION_ON_ERROR_NOT_SUPPORTED
 INVALID_CONTEXT = pywbem.CIM_ERR_INVALID_ENUMERATION_CONTEXT
 NO_ARG = ('default',)
+
+# Failures of one Open/Pull request that are NOT a CIM status: the request
+# never gets an answer (exception raised where the HTTP exchange would
+# happen) ...
+EXC_KINDS = {
+    'conn': (pywbem.ConnectionError, 'ConnectionError'),
+    'timeout': (pywbem.TimeoutError, 'TimeoutError'),
+    'http': (pywbem.HTTPError, 'HTTPError'),
+    'xml': (pywbem.XMLParseError, 'XMLParseError'),
+}
+# ... or the server processes the request and its response is unusable
+# (pywbem itself raises CIMXMLParseError when it reads the out parameters)
+RSP_KINDS = {
+    'rsp-noparams': 'response-without-EndOfSequence-and-EnumerationContext',
+    'rsp-noctx': 'response-without-EnumerationContext',
+    'rsp-badeos': 'response-with-invalid-EndOfSequence',
+}
+NON_CIM_KINDS = sorted(EXC_KINDS) + sorted(RSP_KINDS)
+
+
+def _is_cim(what):
+    return isinstance(what, int)
+
+
+def _inj_exc_class(what):
+    if _is_cim(what):
+        return CIMError
+    if what in EXC_KINDS:
+        return EXC_KINDS[what][0]
+    return pywbem.CIMXMLParseError
+
+
+def _inj_name(what):
+    if _is_cim(what):
+        return 'CIMError-%d' % what
+    if what in EXC_KINDS:
+        return EXC_KINDS[what][1]
+    return 'CIMXMLParseError(%s)' % RSP_KINDS[what]
+
+
+def _inj_raise(what):
+    if _is_cim(what):
+        raise CIMError(what, 'injected server error')
+    if what == 'conn':
+        raise pywbem.ConnectionError('injected')
+    if what == 'timeout':
+        raise pywbem.TimeoutError('injected: no response within the timeout')
+    if what == 'http':
+        raise pywbem.HTTPError(503, 'injected: Service Unavailable')
+    assert what == 'xml', what
+    raise pywbem.XMLParseError('injected: response is cut off (not '
+                               'well-formed XML)')
+
+
+def _mangle_response(result, what):
+    "Open/Pull response tuple list of the mock made unusable"
+    out = []
+    for item in result or []:
+        if item[0] == 'EnumerationContext' and \
+                what in ('rsp-noparams', 'rsp-noctx'):
+            continue
+        if item[0] == 'EndOfSequence':
+            if what == 'rsp-noparams':
+                continue
+            item = (item[0], item[1],
+                    'FALSE' if what == 'rsp-noctx' else 'MAYBE')
+        out.append(item)
+    return out
 
 
 # ---------------------------------------------------------------------------
@@ -373,6 +483,10 @@ _MOC = [1, 1, 1, 1, 2, 2, 2, 3, 3, 5, ('size', -1), ('size', -1),
         ('u32', 2), ('u32', 3), NO_ARG]
 _MOC_BAD = [0, 0, None, -1, 'abc', 1.5, ('u32', 0)]
 _K = [0, 1, 1, 2, 3, ('size', -1), ('size', 0)]
+_INJECT_WHAT = [FAILED, FAILED, pywbem.CIM_ERR_ACCESS_DENIED,
+                pywbem.CIM_ERR_ACCESS_DENIED, NOT_SUPPORTED,
+                'conn', 'conn', 'timeout', 'http', 'xml',
+                'rsp-noparams', 'rsp-noctx', 'rsp-badeos']
 
 
 def g_init(draw, query=False):
@@ -479,11 +593,8 @@ def g_call(draw, query):
     else:
         a['MaxObjectCount'] = draw(st.sampled_from(_MOC))
     inject = None
-    if draw(S._I100) < 14:
-        what = draw(st.sampled_from([FAILED, FAILED,
-                                     pywbem.CIM_ERR_ACCESS_DENIED,
-                                     pywbem.CIM_ERR_ACCESS_DENIED,
-                                     NOT_SUPPORTED, 'conn']))
+    if draw(S._I100) < (26 if which == QUERY else 20):
+        what = draw(st.sampled_from(_INJECT_WHAT))
         inject = {'at': draw(st.sampled_from([0, 1, 1, 1, 2, 2, 3])),
                   'what': what,
                   'mode': draw(st.sampled_from(['keep', 'drop']))}
@@ -572,6 +683,7 @@ class Rec:
         self.session_requests = 0
         self.inject = None
         self.injected = False
+        self.open_at_error = False  # server still held the context then
         self.bad_moc = False
         self.kwargs = None
         self.e_trad = None        # ('ok', Counter) | ('err', code)
@@ -680,15 +792,40 @@ class Machine:
                     rec.session_requests += 1
                     inj = rec.inject
                     if inj and not rec.injected and idx == inj['at']:
-                        rec.injected = True
-                        if inj['mode'] == 'drop' and \
-                                methodname.startswith('Pull'):
-                            m.table.pop(kw.get('EnumerationContext'), None)
-                        if inj['what'] == 'conn':
-                            raise pywbem.ConnectionError('injected')
-                        raise CIMError(inj['what'], 'injected server error')
+                        return m._inject(rec, inj, orig, methodname,
+                                         namespace, args, kw)
             return orig(methodname, namespace, *args, **kw)
         conn._imethodcall = tap  # pylint: disable=protected-access
+
+    def _inject(self, rec, inj, orig, methodname, namespace, args, kw):
+        """
+        answer the j-th Open/Pull request of a call with the injected
+        failure: an exception in place of the exchange, or (RSP_KINDS) the
+        server's real response made unusable
+        """
+        what = inj['what']
+        pull = methodname.startswith('Pull')
+        key = kw.get('EnumerationContext') if pull else None
+        if what in RSP_KINDS:
+            known = set(self.table)
+            # an error of the server itself is not an injected one
+            result = orig(methodname, namespace, *args, **kw)
+            rec.injected = True
+            result = _mangle_response(result, what)
+            if not pull:
+                # the client cannot learn the context from this response:
+                # nothing it could close (the server's timeout does it)
+                for k in set(self.table) - known:
+                    self.table.pop(k, None)
+            elif inj['mode'] == 'drop':
+                self.table.pop(key, None)
+            rec.open_at_error = pull and key in self.table
+            return result
+        rec.injected = True
+        if inj['mode'] == 'drop' and pull:
+            self.table.pop(key, None)
+        rec.open_at_error = pull and key in self.table
+        return _inj_raise(what)
 
     # ---- helpers ---------------------------------------------------------
 
@@ -1095,8 +1232,16 @@ class Machine:
         if rec.bad_moc and rec.requests:
             self.fail('invalid-MaxObjectCount:request-sent-before-rejection',
                       '%s: %r' % (self._describe(rec), rec.requests))
-        self._check_table('error' if isinstance(status, Exception)
-                          else 'exhaust', rec)
+        if not isinstance(status, Exception):
+            after = 'exhaust'
+        elif isinstance(status, pywbem.Error) and \
+                not isinstance(status, CIMError):
+            # another root cause than a clean-up that does not run at all:
+            # one that depends on the type of the exception
+            after = 'non-CIM-error'
+        else:
+            after = 'error'
+        self._check_table(after, rec)
 
     def _judge_injected(self, rec, status, got):
         inj = rec.inject
@@ -1105,6 +1250,12 @@ class Machine:
         if inj['at'] > 0:
             self.nontrivial = True
             rec.ended_early = True
+            # the situation the clean-up clause is about: did the server
+            # still hold the enumeration when the request failed?
+            self.classes.add('error-in-the-middle:%s:%s' % (
+                'CIMError' if _is_cim(inj['what']) else 'non-CIMError',
+                '%s:server-context-still-open' % SHORT[rec.which]
+                if rec.open_at_error else 'server-context-already-closed'))
         pred = rec.pred
         if inj['at'] == 0 and inj['what'] in (FAILED, NOT_SUPPORTED) and \
                 self.init['use_pull'] is None and rec.flag_before is None:
@@ -1125,17 +1276,14 @@ class Machine:
                 self.classes.add('inject:open-error-means-fallback')
                 self.flags[rec.which] = False
                 return
-        exc_cls = pywbem.ConnectionError if inj['what'] == 'conn' \
-            else CIMError
-        ok = isinstance(status, exc_cls) and (
-            inj['what'] == 'conn' or status.status_code == inj['what'])
+        ok = isinstance(status, _inj_exc_class(inj['what'])) and (
+            not _is_cim(inj['what']) or status.status_code == inj['what'])
         extra = got - pred.items if pred.kind != 'err' else got
         if extra:
             self._mismatch(rec, 'more', got, pred)
         if ok:
             return
-        what = 'ConnectionError' if inj['what'] == 'conn' else \
-            'CIMError-%d' % inj['what']
+        what = _inj_name(inj['what'])
         if isinstance(status, CIMError) and \
                 status.status_code == INVALID_CONTEXT and \
                 inj['mode'] == 'drop' and inj['at'] > 0:
@@ -1496,11 +1644,68 @@ def matrix_replay(ctx, example):
     run_history(ctx, example)
 
 
+# ---------------------------------------------------------------------------
+# exhaustive 'error in the middle' matrix
+
+_ERR_WHAT = [FAILED, pywbem.CIM_ERR_ACCESS_DENIED] + NON_CIM_KINDS
+
+
+def _errmatrix_cases(thorough=False):
+    for which in ITER_OPS + [QUERY]:
+        for up in (None, True):
+            for what in _ERR_WHAT:
+                for size in ((4, 7) if thorough else (4,)):
+                    yield (which, up, what, size)
+
+
+def _errmatrix_example(case, thorough=False):
+    which, up, what, size = case
+    init = {'nbase': 0, 'nmid': 0, 'nleaf': 0, 'nother': 0, 'nx': 0,
+            'hub': 0, 'rev': 0, 'use_pull': up, 'disabled': False,
+            'query': which == QUERY}
+    a = {}
+    if which == QUERY:
+        init['nbase'] = size
+        a.update(FilterQueryLanguage='DMTF:FQL',
+                 FilterQuery='SELECT * FROM C15_Base', namespace=None,
+                 ReturnQueryResultClass=None)
+    elif which in ENUM_OPS:
+        init['nbase'] = size
+        a['ClassName'] = ('C15_Base', 'none')
+    else:
+        init['nbase'] = 1
+        init['nother'] = size
+        init['hub'] = size
+        a['InstanceName'] = ('src', 0, 'plain')
+    a['MaxObjectCount'] = 1
+    # the first call meets an undetermined family (use_pull None), the later
+    # ones a decided one; the error at the Open request comes last (an
+    # undetermined family would take CIM_ERR_FAILED there as 'no pull')
+    ats = (1, 2, size - 1, 0) if thorough else (1, 2, 0)
+    steps = [{'op': 'call', 'which': which, 'args': dict(a),
+              'consume': ('all',),
+              'inject': {'at': at, 'what': what, 'mode': mode}}
+             for at in ats for mode in ('keep', 'drop')]
+    return (init, steps)
+
+
+def errmatrix(ctx, shard, nshards):
+    thorough = ctx.tier == 'thorough'
+    for i, case in enumerate(_errmatrix_cases(thorough)):
+        if i % nshards != shard:
+            continue
+        ex = _errmatrix_example(case, thorough)
+        ctx.current = ex
+        run_history(ctx, ex)
+
+
 SUBCHECKS = [
     Sub('history', machine=Machine, quick=(16, 240), thorough=(16, 4800),
         steps=(8, 14), case_timeout=120, budget=(600, 3000)),
     Sub('query', machine=QueryMachine, quick=(8, 70), thorough=(16, 1500),
         steps=(8, 14), case_timeout=120, budget=(600, 3000)),
     Sub('matrix', enumerate=matrix, quick=(8, 0), thorough=(8, 0)),
+    Sub('errmatrix', enumerate=errmatrix, quick=(4, 0), thorough=(4, 0)),
 ]
 SUBCHECKS[2].replay = matrix_replay
+SUBCHECKS[3].replay = matrix_replay
